@@ -149,3 +149,17 @@ func (vc *VC) havocMaps(st *State) {
 		st.Maps[k] = f.fresh(vc)
 	}
 }
+
+// length of a map in a given version: an uninterpreted function of the map reference
+func (f *mapFam) lenTerm(vc *VC, st *State, m string) string {
+	ver := f.cur(vc, st)
+	fn := fmt.Sprintf("ML_%s_%s", f.name, ver)
+	vc.S.declFun(fn, []string{"Int"}, "Int")
+	t := sx(fn, m)
+	key := "maplen:" + t
+	if !vc.S.decl[key] {
+		vc.S.decl[key] = true
+		vc.S.raw("(assert (and (<= 0 " + t + ") (<= " + t + " 1099511627776)))")
+	}
+	return t
+}
